@@ -131,7 +131,10 @@ def create_nxgraph(net, include_pipes=True, respect_status_pipes=True,
             if respect_status_branches_all not in [True, False] else respect_status_branches_all
         # some formulation to add weight
         weight_getter = branch_params.get("weighting_%ss" % table_name, None)
-        valve_et_filter = switch_components.get(include_kw) if respect_status_valves else None
+        # the status of valves attached to pipes follows the valve flag, which the flag for all branches overrides
+        respect_pipe_valves = respect_status_valves \
+            if respect_status_branches_all not in [True, False] else respect_status_branches_all
+        valve_et_filter = switch_components.get(include_kw) if respect_pipe_valves else None
         add_branch_component(comp, mg, net, table_name, include_comp, respect_status, weight_getter, valve_et_filter)
 
     # add all junctions that were not added when creating branches
